@@ -10,6 +10,7 @@ CONSTANTS
   MaxMut = 2
   MaxSnap = 3
   MaxDepth = 3
+  MaxTx = 0
   FrameAddr <- FrE
   NewAddrs <- NewE
   XferTo <- XferE
